@@ -9,3 +9,7 @@ open GoSQLXModel
 #print axioms Props.C02.parser_stack_bounded
 #print axioms Props.C02.tokenizer_stack_bounded
 #print axioms Props.C02.not_chain_shape_unbounded
+#print axioms Lex.tokenize_bounded
+#print axioms Lex.token_limit_refuses
+#print axioms Props.C02.token_count_is_bounded
+#print axioms Props.C02.token_limit_refuses_reference_text
